@@ -4,22 +4,39 @@ HOOKS = dict(
     guard="cfg(kani) / cfg(folo_verif)",
     enable="Kani sets cfg(kani) itself (cargo kani); native replays build with RUSTFLAGS='--cfg folo_verif' and FOLO_VERIF_DIR=/verif",
     baseline_off_cmd="cd /repo && cargo nextest run --workspace --no-fail-fast --tool-config-file pb:/w/lib/nextest.toml --profile pb --test-threads 8 --offline || cargo test --workspace --no-fail-fast --offline",
-    source_commits=["c13769c", "f72257d", "bd85f32", "a238489", "f66556c", "364127b"],
+    source_commits=["c13769c", "f72257d", "bd85f32", "a238489", "f66556c", "364127b", "4acd1a0", "a199ee3"],
     add_only=True,
 )
 
 ENGINES = [
-    dict(name="mirproto", path="lib/mirproto_engine.py", serves_properties=["C05", "C06"],
+    dict(name="mirproto", path="lib/mirproto_engine.py", serves_properties=["C05", "C06", "C08"],
          kind_free_text="MIR -> SMT bounded model checking of lock-free protocols: the nightly compiler's MIR of the real protocol functions is regenerated on every run; "
                         "thread-local code is executed concretely into per-thread automata of visible steps (atomics with their orderings, fences, cell accesses, waker callbacks, storage release); "
                         "all interleavings of the endpoint programs up to the step bound, with vector-clock happens-before, are decided by z3 (bit-blast + SAT); counterexamples are schedules re-checked against the current source"),
-    dict(name="kani", path="lib/kani_engine.py", serves_properties=["C01", "C02", "C07", "C11", "C16", "C18"],
+    dict(name="kani", path="lib/kani_engine.py", serves_properties=["C01", "C02", "C07", "C08", "C11", "C16", "C18", "C20"],
          kind_free_text="Kani 0.68 / CBMC 6.11 / CaDiCaL bounded model checking of #[kani::proof] harnesses over the real crates "
                         "(path dependency or in-crate include hook); symbolic inputs and symbolic callback programs; "
                         "counterexamples replayed natively (dev, release, Miri) before a violation is reported"),
 ]
 
 CLAIMED = {
+    "C08": dict(
+        engine="mirproto",
+        technique="SMT-based bounded model checking (z3) of all interleavings of the real reset-event functions (from MIR) with an explicit all-permutations linearizability query; Kani/CBMC contract check of the awaiter list",
+        design_ref="DESIGN.md §5 C08",
+        text="For every scenario (auto-reset and manual-reset event, 2-3 threads, <= 5 logical operations from set / reset / try_wait / wait-poll / re-poll with a new waker / drop-wait) z3 decides over ALL interleavings of the visible steps of the real EventInner::{set, reset, try_wait, poll_wait, drop_wait} and Awaiter::{take_notification, is_registered, is_notified} (from MIR; mutex lock/unlock; waiter list replaced by its FIFO-with-generations contract): "
+             "the history (invocation/response stamps and results) has a linearization w.r.t. the boolean-flag specification - refuted permutation by permutation -, no waiter is left registered while the signal is stored, HAS_WAITERS clear implies an empty waiter list, a notified waiter's latest waker was invoked, manual set releases every waiter registered before it, waker clones = drops. The contract of the waiter list is checked against the real awaiter_set crate with Kani (3 awaiters, FIFO order, generations, lifecycle bytes). "
+             "One genuine defect (manual-reset: a set() straddling a reset() releases a waiter that started after the reset) is reproduced natively and reported as KNOWN-FINDING. Bounded, not a proof.",
+        note="Sequentially consistent interleaving semantics for values (two kinds of atomic locations); happens-before tracked. Trusts rustc's MIR, extraction tables (fail closed), fingerprint-pinned hand models, z3, Kani/CBMC.",
+    ),
+    "C20": dict(
+        engine="kani",
+        technique="bounded model checking (Kani/CBMC SAT with float bit-blasting) of the real clamp, exact-tail, rank and Pettitt-location code against brute-force definitions",
+        design_ref="DESIGN.md §4 C20",
+        text="clamp_p_value decided for EVERY f64 (NaN / infinities -> 1.0, result always in [1e-15, 1]); exact_tail_p_values on 2 (3 thorough) arbitrary finite non-negative counts: every reported p in the reportable range; scaled_average_ranks on 3 ARBITRARY f64 equals the brute-force definition under the documented total order and depends only on the order of the data (monotone invariance); "
+             "pettitt_rank_location on 2-4 doubled ranks equals integer brute force (location, prefix rank sum - also for flat series -, statistic); mann_whitney_tie_term on 3 ranks; exact_mw_feasible for n1,n2 <= 40 (thorough). Partial claim: the rank layer and the reporting range only. Bounded, not a proof.",
+        note="Transcendental / iterated float code (normal and Student-t tails, exact rank-sum DP) and larger samples are outside the claim. Trusts Kani/CBMC/CaDiCaL.",
+    ),
     "C05": dict(
         engine="mirproto",
         technique="SMT-based bounded model checking (z3) of all interleavings of the real protocol functions, extracted from the compiler's MIR, with vector-clock happens-before",
@@ -93,8 +110,8 @@ CLAIMED = {
 
 PENDING = "check under construction in this build phase (see DESIGN.md); not claimed until its check is committed"
 NOT_APPLICABLE = {
-    "C08": PENDING,
-    "C19": PENDING, "C20": PENDING,
+
+    "C19": PENDING,
     "C03": "wrapper pools (Arc<Mutex<..>>, Rc<RefCell<..>> + type-erased removers) exhaust 20-28 GB in CBMC even for {insert; drop handle} at capacity 2 (DESIGN.md P22); the Send/Sync clause is a trait-solver question, not an SMT query over the code",
     "C04": "the panic half needs unwinding (absent in Kani; catch_unwind even ICEs it) and the re-entrancy half needs the wrapper-pool shapes that do not fit (P22)",
     "C09": "take/take_all run through foldhash maps, pdqsort, VecDeque, rejection-sampling RNG loops and Arc-carrying processor records; a 4-processor/2-region query used 30 GB for 20 min without a verdict (P12)",
